@@ -45,7 +45,15 @@ def model_val(s: str):
     return Fraction(s)
 
 
-def gen_clusters(rng: random.Random, F: int, degenerate: float = 0.15) -> list[list[list[int]]]:
+def gen_clusters(rng: random.Random, F: int, degenerate: float = 0.15, big: float = 0.06) -> list[list[list[int]]]:
+    if rng.random() < big:
+        # column sums beyond one byte: a cluster of more than 255 rows next to smaller ones, dense bits
+        sizes = rng.choice([[300, 200, 200], [200, 260, 130], [257, 255], [130, 140, 520]])
+        out = []
+        for n in sizes:
+            proto = [1 if rng.random() < 0.8 else 0 for _ in range(F)]
+            out.append([[b ^ (1 if rng.random() < 0.1 else 0) for b in proto] for _ in range(n)])
+        return out
     k = rng.choice([1, 2, 2, 3, 4, 6])
     protos = [[1 if rng.random() < 0.5 else 0 for _ in range(F)] for _ in range(k)]
     out = []
@@ -63,7 +71,7 @@ def suite_indices(tier: str, seed: int, mult: int) -> SuiteResult:
     res = SuiteResult("S-METRICS[indices]")
     d = Driver()
     cnt = {"cases": 0, "with_singleton_cluster": 0, "permutations_checked": 0, "python_nonfinite_chi_or_dbi": 0, "dunn_nan": 0,
-           "F_not_multiple_of_8": 0}
+           "F_not_multiple_of_8": 0, "with_cluster_above_255_rows": 0}
     warnings.simplefilter("ignore")
     try:
         for k in range((250 if tier == "quick" else 6000) * mult):
@@ -73,6 +81,7 @@ def suite_indices(tier: str, seed: int, mult: int) -> SuiteResult:
             pk = [np.packbits(c, axis=-1) for c in un]
             cnt["cases"] += 1
             cnt["with_singleton_cluster"] += any(len(c) == 1 for c in cl)
+            cnt["with_cluster_above_255_rows"] += any(len(c) > 255 for c in cl)
             cnt["F_not_multiple_of_8"] += F % 8 != 0
             res.evaluations += 1
             case = {"F": F, "clusters": [[row_hex(r) for r in c] for c in cl]}
@@ -153,25 +162,26 @@ def suite_analysis(tier: str, seed: int, mult: int) -> SuiteResult:
     res = SuiteResult("S-METRICS[cluster_analysis]")
     d = Driver()
     work = Path(tempfile.mkdtemp(prefix="bbverif-ana-", dir=SCRATCH))
-    cnt = {"cases": 0, "provider_calls": 0, "file_sequences": 0, "with_empty_file": 0, "unsorted_input": 0, "top_none": 0, "min_size_cuts": 0}
+    cnt = {"cases": 0, "provider_calls": 0, "file_sequences": 0, "with_empty_file": 0, "unsorted_input": 0, "sorted_by_the_library": 0, "top_none": 0, "min_size_cuts": 0}
     warnings.simplefilter("ignore")
     try:
-        for k in range((60 if tier == "quick" else 1500) * mult):
+        for k in range((100 if tier == "quick" else 1500) * mult):
             F = rng.choice([5, 8, 13, 16, 64])
-            n = rng.choice([1, 3, 8, 20, 60, 150])
+            n = rng.choice([1, 3, 8, 20, 20, 60, 60, 150])
             protos = [[1 if rng.random() < 0.5 else 0 for _ in range(F)] for _ in range(3)]
             X = np.asarray([[b ^ (1 if rng.random() < 0.15 else 0) for b in rng.choice(protos)] for _ in range(n)], dtype=np.uint8).reshape(n, F)
             P = np.packbits(X, axis=-1)
             clusters = gen_partition(rng, n)
-            sorted_in = rng.random() < 0.7
+            sorted_in = rng.random() < 0.5
             if sorted_in:
                 clusters.sort(key=len, reverse=True)
             top = rng.choice([None, 0, 1, 2, 3, 20])
-            ms = rng.choice([0, 0, 1, 2, 3, 6])
-            assume_sorted = sorted_in or rng.random() < 0.5
+            ms = rng.choice([0, 2, 2, 3, 4, 6])
+            assume_sorted = sorted_in or rng.random() < 0.25
             case = {"F": F, "n": n, "clusters": clusters, "top": top, "min_size": ms, "assume_sorted": assume_sorted}
             cnt["cases"] += 1
             cnt["unsorted_input"] += not sorted_in
+            cnt["sorted_by_the_library"] += not assume_sorted
             cnt["top_none"] += top is None
             wd = work / f"a{k}"
             wd.mkdir()
